@@ -81,7 +81,9 @@ def scenarios(ctx: Ctx, backend: str) -> List[Scenario]:
     S.append(Scenario(backend, "full_with_d_o", [inv(["-d", "/data/only.root", "-o", "/tmp/outdir"], mkdirs=["/tmp/outdir"])], **base))
     S.append(Scenario(backend, "full_then_rerun", [inv([]), inv(["-r", "-d", "/data/again.root"])], **base))
     S.append(Scenario(backend, "d_values_are_taken_verbatim", [inv(["-c"]), inv(["-r", "-d", "root://eospublic.cern.ch//eos/opendata/f.root"]), inv(["-r", "-d", "https://host.example/data/x.root"]),
-                                                               inv(["-r", "-d", "relative/dir/x.root"]), inv(["-r", "-d", "/data/abs.root"]), inv(["-r", "-d", "file:///data/u.root"])], **base))
+                                                               inv(["-r", "-d", "relative/dir/x.root"]), inv(["-r", "-d", "/data/abs.root"]), inv(["-r", "-d", "file:///data/u.root"]),
+                                                               inv(["-r", "-d", "/data/DAOD_PHYS%2Fpart.0001.root"]), inv(["-r", "-d", "/data/a%20b%_c.root"]), inv(["-r", "-d", "/data/back\\slash\\n.root"]),
+                                                               inv(["-r", "-d", "/data/-n"]), inv(["-r", "-d", "/data/dollar$HOME.root"])], **base))
     # -o names a FILE that already exists (left by an earlier job / by someone else): it is replaced by this run's output
     S.append(Scenario(backend, "output_file_already_exists", [inv(["-o", "/results/pre.root"], prepopulate="/results/pre.root"),
                                                               inv(["-r", "-d", "/data/b.root", "-o", "/results/pre.root"]),
